@@ -42,7 +42,7 @@ CHECKS = {
             "is re-fingerprinted after later adds. Four build modes: validated / unvalidated entry point, without and with balance "
             "look-ups (at the head / at every block) between arrivals, so that on-demand caches are hot when the next block "
             "arrives; a second payload menu pays never-seen keys twice in one transaction / reward; a third has a zero-value reward "
-            "output to a key that then spends all its positive outputs.",
+            "output to a key that then spends all its positive outputs, and a transaction whose inputs alternate between owners.",
             "De-duplication on (stored set, head) assumes the state is a function of those; that is exactly what the per-block "
             "comparison and the order differential test for the kept representatives.", "DESIGN.md section 4, C03"),
     'C04': (MC, "exhaustive enumeration of all n! parent-choice sequences; reference fork choice in lock-step",
@@ -65,8 +65,8 @@ CHECKS = {
                 "easy-target universe where proof-of-work luck cannot mask anything",
             "For 40 (quick) / several hundred (thorough) fully valid blocks with 1-4 transactions, reward data 0/1/200 bytes and "
             "heights on both sides of the VLQ width boundaries, every bit flip and every proper prefix of the encoding goes "
-            "through Block.deserialize and CoinState.add_block on the chain holding the block's parent, and every refused "
-            "mutant is presented a second time; any acceptance is a violation. If the tree under test refuses the reference-assembled blocks, blocks from its own assembly are used.",
+            "through Block.deserialize (right after the genuine bytes were decoded) and CoinState.add_block on the chain holding "
+            "the block's parent, and every refused mutant is presented a second time; any acceptance is a violation. If the tree under test refuses the reference-assembled blocks, blocks from its own assembly are used.",
             "Single-bit and truncation faults only; the rejecting-rule histogram in the evidence is informational.",
             "DESIGN.md section 4, C06"),
     'C07': (EX, "exhaustive enumeration of decoder inputs: all short VLQ strings, every byte x position substitution of sample "
@@ -90,7 +90,8 @@ CHECKS = {
             "the same file and read_chain_from_disk: same ids, byte-identical blocks, parent before child, rebuilt unspent set "
             "at every block and head height equal to the pre-restart ones; plus a 201-block chain carrying reward data of every "
             "length 0..200 under three batchings; batchings with <= 2 flushes also with the first batch handed over, discarded "
-            "as after a rejected download, and handed over again. Threads: 4 plans of 2-3 threads doing save_block / flush_blocks through the "
+            "as after a rejected download, and handed over again; reward shapes without outputs / with a zero-value output / with two "
+            "outputs. Threads: 4 plans of 2-3 threads doing save_block / flush_blocks through the "
             "real DiskInterface on one file store, every schedule with <= 2 (3) preemptions (3-thread plan one less) at "
             "source-line granularity of blockstore.py: every block whose saving thread's flush returned is read back "
             "byte-identical from the re-opened store, no exception, no deadlock. One recorded defect (shared transaction across "
@@ -107,7 +108,8 @@ CHECKS = {
             "apply errors). After each delivery: entered state only if reference-valid with stored parent; accepted => committed "
             "to the store (read through a second connection) and relayed exactly once iff new head; otherwise chain state, "
             "store rows, write buffer and pool unchanged and nothing relayed; each sequence is closed by a fresh valid block "
-            "that must get stored. The deliverer greets with a header time stamp one hour ahead. Threads: the networking "
+            "that must get stored. The deliverer greets with a header time stamp one hour ahead. Start states with 1-2 bulk-download "
+            "blocks pending, then a rejected relay (5 kinds), then two valid relays that must get stored. Threads: the networking "
             "thread (iterations of LocalPeer.run's loop body over the fake selector) handles a valid sibling block / a block "
             "failing full validation / a transaction while the miner thread runs the real found-block handler, every schedule "
             "with <= 1 (2) preemptions at source-line granularity of mining, manager, blockstore, disk_interface, local_peer "
@@ -133,7 +135,7 @@ CHECKS = {
             "granularity (C11 covers fragmentation).", "DESIGN.md section 4, C10"),
     'C11': (MC, "exhaustive enumeration of all 2-way and 3-way cuts of framed and corrupted streams against a reference framer",
             "116 (quick) / ~300 streams of 1-3 real messages and 30 corruption variants (each magic byte, over-limit and "
-            "boundary lengths, short/long lengths, undecodable payloads, truncation); for each: whole, bytewise, every 2-way cut "
+            "boundary lengths, over-limit lengths made of the magic's own bytes, short/long lengths, undecodable payloads, truncation); for each: whole, bytewise, every 2-way cut "
             "(also with an empty read) and every 3-way cut, through MessageReceiver.receive and through "
             "ConnectedRemotePeer.handle_receive_data; the dispatched sequence and the read that raises the refusal must equal "
             "the reference framer's under every cut. Frames of 5 KB / 71 KB (thorough 1.1 MB) alone, first and last in a stream under "
@@ -149,7 +151,8 @@ CHECKS = {
             "{nothing, the clock advances by 7 s, the socket to the first peer is dead, competing block with a time inside (clock, clock+30] arrives, pool gains a "
             "transaction} injected after "
             "work request 0 or 1 or after result 0 (root target 2^255, so runs contain losing nonces; retarget period seam 4, so "
-            "candidates at heights 4 and 8 are retarget-boundary blocks): the found block "
+            "candidates at heights 4 and 8 are retarget-boundary blocks; the miner process works on a copy of the request made at "
+            "request time, as the real queue delivers it): the found block "
             "passes the node's add_block on the state served at request time and the reference validator, pays exactly subsidy "
             "+ fees to the handed-out key, is later than its parent; afterwards the served chain state contains it (as head if "
             "it extends the served head), the store has it, every greeted peer got it exactly once. The clock = head-30 corner "
@@ -163,7 +166,7 @@ CHECKS = {
                 "ledger in lock-step; preemption-bounded exhaustive exploration of admission / head change / observer threads "
                 "on the real ChainManager",
             "BFS to depth 4 (6), de-duplicated on (stored blocks, head, ordered pool): submissions (valid, conflicting, "
-            "overlapping 2-input, already mined, other-fork output, 8 malformed kinds, bad signature, overspend, resubmission) "
+            "overlapping 2-input, already mined, other-fork output, 11 malformed kinds (boundary amounts at every output position), bad signature, overspend, resubmission) "
             "through the network handler and through add_transaction_to_pool; head changes (extension including / conflicting "
             "with / ignoring pooled transactions, side forks, reorganisations) through relayed blocks, through blocks answering a "
             "request (bulk path) and through set_coinstate. "
@@ -184,7 +187,8 @@ CHECKS = {
             "must pass the node's and the reference validation, pay exactly, give exactly the change, use only unused wallet "
             "outputs; a failure must leave the record unchanged and happen only when unused outputs do not suffice. 24 (40) worlds are "
             "explored to 5 (6) operations with a reduced amount alphabet, confirmation of ANY pending spend as its own operation and "
-            "one reorganisation onto a branch without the confirmed spends; wallets holding 1,100 (2,100) outputs, 13 attempts each "
+            "one reorganisation onto a branch without the confirmed spends, one wallet object carried along each path, confirmations "
+            "whose reward refunds the spending keys; wallets holding 1,100 (2,100) outputs, 13 attempts each "
             "(few, 255/256, all but one, all).",
             "Greedy selection order is whatever the wallet does; only the stated outcome is checked.", "DESIGN.md section 4, C14"),
     'C15': (MC, "explicit-state search over wallet operation sequences with a reference wallet in lock-step; crash-point "
@@ -200,7 +204,7 @@ CHECKS = {
             "saves again: the file then holds that wallet.",
             "Process-crash model (kernel view at syscall boundaries); no power-loss reordering.", "DESIGN.md section 4, C15"),
     'C17': (EX, "exhaustive enumeration of all lists over a small alphabet and all single edits / proof positions per length",
-            "All lists over 3 (4) ids up to length 8 (9): commitments pairwise distinct (covers every substitution, reordering, "
+            "All lists over 3 (4) ids up to length 8 (9), and over {all-zero id, all-ones id, ordinary id} up to length 8: commitments pairwise distinct (covers every substitution, reordering, "
             "removal, append, duplication incl. duplicate-last); for every length up to 33 (130) every single edit changes the "
             "commitment and the proof at every position reproduces it and contains the entry; the same edits on real blocks' "
             "transaction lists with the header kept are refused; every ordered pair of lists over 4 ids up to length 4 (5): "
@@ -216,7 +220,7 @@ CHECKS = {
             "pass full validation with the real scrypt (horizon lowered), also when a competing block at height 1 arrived first "
             "and right after refused look-alikes (altered evidence; re-mined copies claiming a wrong height whose evidence "
             "reconstruction fails half-way), and when the recorded chain is loaded again into fresh objects after the earlier ones "
-            "were dropped, with id() replaced by a harness-owned one that hands dead objects' ids to new objects adversarially; "
+            "were dropped (and when the recorded blocks are decoded from streams carrying more bytes after each block), with id() replaced by a harness-owned one that hands dead objects' ids to new objects adversarially; "
             "the check's reference validator agrees on the recorded blocks.",
             "Only six recorded real blocks exist offline.", "DESIGN.md section 4, C18"),
     'C16': (EX, "exhaustive enumeration of the whole input domain (every height) against a closed-form reference",
@@ -224,7 +228,8 @@ CHECKS = {
             "full era past exhaustion and at every era boundary up to 2^32-1 and beyond, compared with the closed-form "
             "schedule, checked for monotonicity, summed (= documented maximum) and compared with docs/params.md; the same heights "
             "in descending order, every ordered pair of 106 representative heights and every ordered triple of era starts "
-            "(the answer must not depend on earlier calls); the validator's reward bound at the real era boundaries (single- and multi-output rewards); 11,117 "
+            "(the answer must not depend on earlier calls); the validator's reward bound at the real era boundaries (single- and multi-output rewards, amounts >= 2^63 through the "
+            "wire decoder); 11,117 "
             "output lists over a boundary alphabet offered to the stand-alone transaction validator (accepted iff every output "
             "and the total are in (0, maximum]). "
             "Nothing is sampled, so the verdict is a statement about all inputs.",
@@ -237,7 +242,7 @@ CHECKS = {
             "address in the book next to a greeted peer) over ticks (+0,9,10,11,20,40,1800 s), dials established / refused, incoming connections (also "
             "duplicate keys), greetings (claimed port, own / other nonce, repeated), peers messages (incl. IPv6-only), remote "
             "close, garbage, OS error, <= 3 open connections, give-up seam 3: no key in both maps, nothing escapes the loop, "
-            "every dial satisfies the back-off monitor and the give-up bound, self-connections are dropped, recorded and never "
+            "every dial (also one that fails on the spot) satisfies the back-off monitor and the give-up bound, self-connections are dropped, recorded and never "
             "redialled; is_time_to_connect equals the formula for every k in 0..2882 with the real constants; peers.json after "
             "every greeting (incl. a 130-peer run) is newest-first, <= 100, duplicate-free, and every crash snapshot of every "
             "rewrite is the complete old or new list.",
@@ -251,8 +256,8 @@ CHECKS = {
             "b^01,b^80} (quick: 4 values), every truncation + close, truncation at field boundaries + next message, deletion / "
             "duplication / isolation / transposition of messages, field-boundary splices, every message and data type value "
             "0000..00ff, boundary length fields, huge / non-canonical list counts, magic bytes, crafted rule-breaking blocks and "
-            "transactions (the C01/C02/C05 alphabets, a block stating a height far beyond its chain), seeded random supplement. Oracle: "
-            "nothing escapes the event handling; the victim's peer object, socket, registration, flags and receive buffer are "
+            "transactions (the C01/C02/C05 alphabets, a block stating a height far beyond its chain), seeded random supplement. inventory items of every data type naming the block that follows. Oracle: "
+            "nothing escapes the event handling and every handler returns (20 s watchdog); the victim's peer object, socket, registration, flags and receive buffer are "
             "untouched and its pending frame still completes; chain state / pool / store change only by the transcript's "
             "reference-valid block / transaction.",
             "Sizes stay small (no resource exhaustion); byte strings outside the enumerated families are not covered.",
